@@ -31,7 +31,10 @@ use libp2p_swarm::ConnectionId;
 use prost::Message as _;
 #[cfg(feature = "serde")]
 use serde::{Deserialize, Serialize};
+#[cfg(not(libp2p_verif))]
 use web_time::Instant;
+#[cfg(libp2p_verif)]
+use crate::verif::Instant;
 
 use crate::{TopicHash, queue::Queue, rpc_proto::proto};
 
